@@ -184,6 +184,11 @@ pub fn check(tier: &str) -> i32 {
             }
         }
     }
+    // debugging aid: VERIF_C14_ONLY=<substring of a case key> runs the matching cases only (no verdict is to be drawn from such a run)
+    if let Ok(f) = std::env::var("VERIF_C14_ONLY") {
+        cases.retain(|c| format!("cfg({},{},{})|{}|{:?}|remember@{}", c.cfg.shards, c.cfg.fill_factor, c.cfg.event_per_zone, c.q, c.seq, c.pos).contains(&f));
+        eprintln!("VERIF_C14_ONLY: {} cases", cases.len());
+    }
     let res = par_map(&cases, threads(), |i, c| run_case(&scratch.dir.join(format!("h{i}")), c));
     let again = par_map(&cases[..8.min(cases.len())], threads(), |i, c| run_case(&scratch.dir.join(format!("k{i}")), c));
     for (i, r) in again.iter().enumerate() {
